@@ -1,6 +1,9 @@
 import AlgopyVerif.Proofs.Linalg
 import AlgopyVerif.Proofs.LinalgInv
 import AlgopyVerif.Proofs.Logdet
+import AlgopyVerif.Proofs.Pade
+import AlgopyVerif.Proofs.FaddeevLeVerrier
+import AlgopyVerif.Proofs.FaddeevLeVerrierGeneral
 /-!
 # C07 — linear-algebra functions propagate matrix Taylor polynomials correctly
 
@@ -24,8 +27,19 @@ concrete matrix type in the driver — with the NumPy results on the zeroth coef
   `c = sign(P) · ∏ sign(Uᵢᵢ)` — the formula `UTPM.logdet` evaluates, pointwise along the curve (so the Taylor
   coefficients agree by the `log` kernel theorem and the `JetOf` closure of C01).
 
+* `expm_pade_evaluation`, `expm_pade_tables_match_exp`: the even/odd evaluation of `_expm_pade<q>` gives `U + V = N(x)`,
+  `V − U = D(x) = N(−x)` with the code's coefficient tables (tied to the code by evaluating `_expm_pade<q>` on 1×1 arguments), and
+  `D(X)·exp(X) ≡ N(X)` modulo `X^(2q+1)` in `ℚ⟦X⟧` for `q ∈ {3,5,7,9,13}`: `expm_pade` returns the `[q/q]` Padé approximant of
+  `exp`, of sharp order `2q` (`expm_pade_order_sharp`).
+
+* `det_fallback_every_size` (and `det_fallback_small_sizes` by direct computation): the division-free recursion `UTPM._det_adj`
+  (used by `det` / `pb_det` when the zeroth coefficient is singular) returns the determinant and the adjugate for every size
+  `N ≥ 1` over every field of characteristic zero (so over the Laurent series `ℝ((t))`, which contain the power series; the
+  recursion divides by the integers `2..N` only and therefore stays inside `ℝ⟦t⟧`, where truncation modulo `t^D` is a ring
+  homomorphism) — the Faddeev–LeVerrier theorem, derived from `(X·1 − A)·adj(X·1 − A) = χ_A·1` and `χ_A' = tr adj(X·1 − A)`.
+
 Not proved (partial): rectangular right-hand sides (the theorem is stated in one ring; the model and
-the code handle `n×k`), the Padé approximant of `expm` — these are
+the code handle `n×k`), the size of the Padé remainder for a matrix of given norm (the thresholds of `expm_higham_2005`) — these are
 checked on the implementation against independent formulas (Leibniz determinant and exponential series
 in Taylor arithmetic, residuals).
 -/
@@ -77,5 +91,36 @@ theorem solve_const_rhs_spec (a : List R) (a0inv b0 : R) (h0 : coR a 0 * a0inv =
 
 /-- non-vacuity over ℤ (a commutative instance of the ring): `x = 1 + 2t`, `y₀ = 1` -/
 example : invM [(1:ℤ), 2, 0] 1 = [1, -2, 4] := by decide
+
+
+/-- `_expm_pade<q>`: `U + V` and `V − U` are the numerator `N(x) = Σ b_k x^k` and the denominator `N(−x)` of the table `b` -/
+theorem expm_pade_evaluation (q : Nat) (hq : q = 3 ∨ q = 5 ∨ q = 7 ∨ q = 9 ∨ q = 13) (x : ℚ) :
+    padeU q x + padeV q x = padePoly q x ∧ padeV q x - padeU q x = padePoly q (-x) :=
+  ⟨padeU_add_padeV q hq x, padeV_sub_padeU q hq x⟩
+
+open PowerSeries in
+/-- the tables of `expm_pade` are the `[q/q]` Padé approximants of `exp`: `D(X)·exp(X)` and `N(X)` agree up to order `2q` -/
+theorem expm_pade_tables_match_exp (q : Nat) (hq : q = 3 ∨ q = 5 ∨ q = 7 ∨ q = 9 ∨ q = 13) (m : Nat) (hm : m ≤ 2 * q) :
+    coeff m (padeDps q * exp ℚ) = coeff m (padeNps q) :=
+  pade_series q hq m hm
+
+/-- and not to order `2q + 1` -/
+theorem expm_pade_order_sharp :
+    padeDefect 3 7 ≠ 0 ∧ padeDefect 5 11 ≠ 0 ∧ padeDefect 7 15 ≠ 0 ∧ padeDefect 9 19 ≠ 0 ∧ padeDefect 13 27 ≠ 0 :=
+  pade_defect_sharp
+
+
+/-- `UTPM._det_adj`: determinant and adjugate by the Faddeev–LeVerrier recursion, sizes 1, 2, 3 -/
+theorem det_fallback_small_sizes {K : Type} [Field K] [CharZero K] :
+    (∀ A : Matrix (Fin 1) (Fin 1) K, AV.FL.flDet A = A.det ∧ AV.FL.flAdj A = A.adjugate)
+    ∧ (∀ A : Matrix (Fin 2) (Fin 2) K, AV.FL.flDet A = A.det ∧ AV.FL.flAdj A = A.adjugate)
+    ∧ (∀ A : Matrix (Fin 3) (Fin 3) K, AV.FL.flDet A = A.det ∧ AV.FL.flAdj A = A.adjugate) :=
+  ⟨AV.FL.fl_one, AV.FL.fl_two, fun A => ⟨AV.FL.fl_three_det A, AV.FL.fl_three_adj A⟩⟩
+
+
+/-- `UTPM._det_adj` for every size `N ≥ 1`: the Faddeev–LeVerrier recursion returns the determinant and the adjugate -/
+theorem det_fallback_every_size {K : Type} [Field K] [CharZero K] {n : Type} [Fintype n] [DecidableEq n] [Nonempty n]
+    (A : Matrix n n K) : AV.FL.flDet A = A.det ∧ AV.FL.flAdj A = A.adjugate :=
+  AV.FLgen.fl_general A
 
 end AV.C07
